@@ -161,7 +161,14 @@ impl fmt::Display for Expr {
                     }
                     recurse(&binop.left, fmt, succ)?;
                     write!(fmt, "{}", binop.op.symbol())?;
-                    recurse(&binop.right, fmt, op_prec)?;
+                    // Only `^` is right associative; everywhere else a
+                    // right operand of the same level needs parentheses.
+                    let right_prec = if binop.op == BinOpType::Pow {
+                        op_prec
+                    } else {
+                        succ
+                    };
+                    recurse(&binop.right, fmt, right_prec)?;
                     if prec < op_prec {
                         write!(fmt, ")")?;
                     }
@@ -197,7 +204,21 @@ impl fmt::Display for Expr {
                     }
                     for expr in exprs.iter().skip(1) {
                         write!(fmt, " ")?;
+                        // `a -b` would read as a subtraction.
+                        let signed = matches!(
+                            *expr,
+                            Expr::UnaryOp(UnaryOpExpr {
+                                op: UnaryOpType::Positive | UnaryOpType::Negative,
+                                ..
+                            })
+                        );
+                        if signed {
+                            write!(fmt, "(")?;
+                        }
                         recurse(expr, fmt, Precedence::Pow)?;
+                        if signed {
+                            write!(fmt, ")")?;
+                        }
                     }
                     if prec < Precedence::Mul {
                         write!(fmt, ")")?;
@@ -223,7 +244,7 @@ impl fmt::Display for Expr {
                         write!(fmt, "(")?;
                     }
                     write!(fmt, "{} of ", property)?;
-                    recurse(expr, fmt, Precedence::Div)?;
+                    recurse(expr, fmt, Precedence::Mul)?;
                     if prec < Precedence::Add {
                         write!(fmt, ")")?;
                     }
